@@ -266,7 +266,12 @@ Lemma pass_cons : forall rec d p cur r c tgt sw,
     | e => PassFail e
     end
   else pass rec (p :: d) cur r c tgt sw.
-Proof. reflexivity. Qed.
+Proof.
+  intros rec d p cur r c tgt sw. cbn [Poly.pass].
+  destruct (op_eqb p cur); [reflexivity|].
+  destruct (op_gtb p cur); [|reflexivity].
+  destruct (if op_eqb p (flip_type cur) then rec (rev d ++ r) c tgt else Done tgt); reflexivity.
+Qed.
 
 Lemma nai_O : forall m c tgt, nai 0 m c tgt = OutOfFuel.
 Proof. reflexivity. Qed.
@@ -364,7 +369,10 @@ Definition key_lb (m : monomial) (p : poly K) : Prop :=
   end.
 
 Lemma poly_sorted_cons : forall m c p, poly_sorted ((m, c) :: p) <-> key_lb m p /\ poly_sorted p.
-Proof. intros m c p. cbn [PolySem.poly_sorted]. unfold key_lb. destruct p as [|[m' c'] p]; tauto. Qed.
+Proof.
+  intros m c p. cbn [PolySem.poly_sorted]. unfold key_lb.
+  destruct p as [|[m' c'] p]; split; intros [H1 H2]; split; assumption.
+Qed.
 
 Lemma key_lb_insert : forall m0 m c p,
   mono_compare m0 m = Lt -> key_lb m0 p -> poly_sorted p -> key_lb m0 (insert m c p).
@@ -373,7 +381,7 @@ Proof.
   - exact Hm.
   - destruct (mono_compare m m') eqn:E.
     + destruct (kzero (kadd c' c)); [|exact Hlb].
-      apply poly_sorted_cons in Hs. destruct Hs as [Hlb' _].
+      apply (proj1 (poly_sorted_cons _ _ _)) in Hs. destruct Hs as [Hlb' _].
       destruct p as [|[m'' c''] p]; [exact I|].
       unfold key_lb in *. eapply mono_compare_lt_trans; eauto.
     + exact Hm.
@@ -385,11 +393,11 @@ Proof.
   intros m c. induction p as [|[m' c'] p IH]; intro Hs.
   - cbn [Poly.insert PolySem.poly_sorted]. auto.
   - cbn [Poly.insert]. destruct (mono_compare m m') eqn:E.
-    + apply poly_sorted_cons in Hs. destruct Hs as [Hlb Hs].
+    + apply (proj1 (poly_sorted_cons _ _ _)) in Hs. destruct Hs as [Hlb Hs].
       destruct (kzero (kadd c' c)); [exact Hs|].
       apply poly_sorted_cons. split; assumption.
     + apply poly_sorted_cons. split; [exact E|exact Hs].
-    + apply poly_sorted_cons in Hs. destruct Hs as [Hlb Hs].
+    + apply (proj1 (poly_sorted_cons _ _ _)) in Hs. destruct Hs as [Hlb Hs].
       apply poly_sorted_cons. split; [|apply IH; exact Hs].
       apply key_lb_insert; auto. apply mono_compare_gt_lt; exact E.
 Qed.
@@ -527,16 +535,18 @@ Proof.
     destruct (op_gtb p cur) eqn:Egt.
     + destruct (op_eqb p (flip_type cur)) eqn:Efl.
       * destruct (op_gt_flip p cur Egt Efl) as [Ep Ec].
+        assert (Hi : op_idx cur < length s) by lia.
+        remember (op_idx cur) as i eqn:Ei. clear Ei. subst p cur.
         destruct (rec (rev d ++ rest) c tgt) as [tgt1| | | |] eqn:Er; try exact I.
         pose proof (Hrec _ _ _ _ Hdrop Er) as H1.
-        specialize (IH (cur :: d) p (kopp c) tgt1 true).
+        specialize (IH (cdag i :: d) (cann i) (kopp c) tgt1 true).
         cbn [rev] in IH. rewrite <- app_assoc in IH. cbn [app] in IH.
         specialize (IH Hsw).
-        assert (Hcar : coef_mono (rev d ++ p :: cur :: rest) s t =
+        assert (Hcar : coef_mono (rev d ++ cann i :: cdag i :: rest) s t =
                        ksub (coef_mono (rev d ++ rest) s t)
-                            (coef_mono (rev d ++ cur :: p :: rest) s t)).
-        { rewrite Ep. rewrite Ec at 1 3. apply (coef_mono_car Hring). lia. }
-        destruct (pass rec (cur :: d) p rest (kopp c) tgt1 true) as [tgt2|m' c' tgt2 sw'|e].
+                            (coef_mono (rev d ++ cdag i :: cann i :: rest) s t)).
+        { apply (coef_mono_car Hring). exact Hi. }
+        destruct (pass rec (cdag i :: d) (cann i) rest (kopp c) tgt1 true) as [tgt2|m' c' tgt2 sw'|e].
         -- rewrite IH, H1, Hcar. ring.
         -- destruct IH as [IHr IHe]. split; [exact IHr|]. rewrite IHe, H1, Hcar. ring.
         -- exact I.
@@ -593,14 +603,26 @@ End NP.
 
 (** * The hypotheses are satisfiable; the model computes *)
 
-Example ring_ok_Z_again :
-  ring_ok Z 0%Z 1%Z Z.add Z.mul Z.sub Z.opp (fun c => Z.eqb c 0) := ring_ok_Z.
-
 (** c_1 c^+_0 c^+_1 = c^+_0 - c^+_0 c^+_1 c_1  (one swap with sign, one contraction) *)
 Example normalize_example :
   Poly.normalize Z Z.add Z.opp (fun c => Z.eqb c 0) [cann 1; cdag 0; cdag 1] 1%Z [] =
   Done [([cdag 0], (-1)%Z); ([cdag 0; cdag 1; cann 1], 1%Z)].
 Proof. vm_compute. reflexivity. Qed.
+
+(** [normalize_sound] applied to it, with [CAR.ring_ok_Z] for the ring hypothesis: on two modes
+    the matrix of the result is the matrix of the raw monomial *)
+Example normalize_sound_example : forall s t, length s = 2 ->
+  coef_poly Z 0%Z 1%Z Z.add Z.mul Z.opp
+    [([cdag 0], (-1)%Z); ([cdag 0; cdag 1; cann 1], 1%Z)] s t =
+  (0 + 1 * coef_mono Z 0%Z 1%Z Z.opp [cann 1; cdag 0; cdag 1] s t)%Z.
+Proof.
+  intros s t Hs.
+  apply (normalize_sound Z 0%Z 1%Z Z.add Z.mul Z.sub Z.opp (fun c => Z.eqb c 0) ring_ok_Z
+           2 [cann 1; cdag 0; cdag 1] 1%Z [] _ s t).
+  - repeat constructor.
+  - exact Hs.
+  - exact normalize_example.
+Qed.
 
 (** two equal neighbours after sorting: the monomial vanishes, the target is unchanged *)
 Example normalize_example_vanish :
